@@ -60,7 +60,7 @@ pub fn gen_rules(rng : &mut Rng, pr : &Profile) -> (Vec<XRule>, Vec<String>)
         let kind = match rng.below(20)
         {
             0..=7 => "fn", 8..=10 => "sel", 11..=16 => "copy", 17 => "const",
-            _ => if pr.fail { "fail" } else if pr.equal_outputs { "copy" } else { "fn" },
+            _ => if pr.fail { if rng.chance(1, 3) { "kill" } else { "fail" } } else if pr.equal_outputs { "copy" } else { "fn" },
         };
         let kind = if pr.equal_outputs && rng.chance(1, 3) { "copy" } else { kind };
         let t : Vec<&str> = tg.iter().map(|s| s.as_str()).collect();
@@ -126,7 +126,7 @@ fn user_action(rng : &mut Rng, pr : &Profile, scn : &mut Scn, rules : &mut Vec<X
             match rng.below(6)
             {
                 0 => { rules[k].id = format!("c{}v{}", k, rng.below(3)); },
-                1 => { if !pr.fail { return false; } rules[k].kind = if rules[k].kind == "fail" { "fn".to_string() } else { "fail".to_string() }; },
+                1 => { if !pr.fail { return false; } rules[k].kind = if rules[k].kind == "fail" || rules[k].kind == "kill" { "fn".to_string() } else if rng.chance(1, 3) { "kill".to_string() } else { "fail".to_string() }; },
                 2 => { rules[k].layout = 1 - rules[k].layout; },
                 3 => { rules[k].rev = !rules[k].rev; },
                 4 if rng.chance(1, 2) =>
